@@ -245,6 +245,149 @@ where
     kani::cover!(cov_fail, "prepare-fails");
 }
 
+/// C15 on the collection level: `MutBumpVec` / `MutBumpVecRev` over `&mut BumpScope`: pushing never moves
+/// the bump position, dropping an unfinalised vector leaves it where it was, `into_slice` yields exactly the
+/// pushed elements (for the rev variant: last pushed first) and advances by the contents plus padding.
+pub(crate) fn ob_mut_vec<A, S>(k: usize, hint: usize, rev: bool)
+where
+    A: crate::BaseAllocator<S::GuaranteedAllocated> + Default,
+    S: BumpAllocatorSettings,
+{
+    let mut a = Arena::<A, S>::build(k, hint);
+    a.havoc();
+    let ci = a.cur;
+    let s0 = a.snaps();
+    let pos0 = s0[ci].pos;
+    let g = a.geo(ci);
+    unsafe { BUDGET = 0 };
+    let n: usize = kani::any();
+    kani::assume(n <= 3);
+    let vals = [kani::any::<u16>(), kani::any::<u16>(), kani::any::<u16>()];
+    let finalise: bool = kani::any();
+    let scope: &mut BumpScope<'_, A, S> = unsafe { transmute_mut(&mut a.bump) };
+    let mut pushed = 0usize;
+    let mut out_addr = 0usize;
+    let mut out_len = 0usize;
+    let mut ok_contents = true;
+    if !rev {
+        let mut v = crate::MutBumpVec::<u16, _>::new_in(&mut *scope);
+        let mut i = 0;
+        while i < n {
+            if v.try_push(vals[i]).is_ok() {
+                pushed += 1;
+            }
+            i += 1;
+        }
+        kani::assert(v.len() == pushed && v.capacity() >= v.len(), "C08.mut_vec.len_and_capacity");
+        if finalise {
+            let sl = v.into_slice();
+            out_addr = sl.as_ptr() as usize;
+            out_len = sl.len();
+            let j: usize = kani::any();
+            kani::assume(j < out_len);
+            ok_contents = sl[j] == vals[j];
+        } else {
+            drop(v);
+        }
+    } else {
+        let mut v = crate::MutBumpVecRev::<u16, _>::new_in(&mut *scope);
+        let mut i = 0;
+        while i < n {
+            if v.try_push(vals[i]).is_ok() {
+                pushed += 1;
+            }
+            i += 1;
+        }
+        kani::assert(v.len() == pushed && v.capacity() >= v.len(), "C08.mut_vec_rev.len_and_capacity");
+        if finalise {
+            let sl = v.into_slice();
+            out_addr = sl.as_ptr() as usize;
+            out_len = sl.len();
+            let j: usize = kani::any();
+            kani::assume(j < out_len);
+            // pushing to a reverse vector prepends: final order is last pushed first
+            ok_contents = sl[j] == vals[out_len - 1 - j];
+        } else {
+            drop(v);
+        }
+    }
+    unsafe { BUDGET = usize::MAX };
+    let pos1 = a.snaps()[ci].pos;
+    kani::assert(a.cur_index() == ci, "C15.mut_vec.stays_in_chunk_when_it_fits");
+    if finalise && out_len > 0 {
+        kani::assert(out_len == pushed && ok_contents, "C15.mut_vec.into_slice_yields_exactly_the_pushed_elements");
+        kani::assert(al(out_addr, 2) && a.is_allocated(out_addr) && a.is_allocated(out_addr + 2 * out_len - 1), "C01.mut_vec.slice_is_allocated");
+        let pad_bound = if S::MIN_ALIGN > 2 { S::MIN_ALIGN } else { 2 };
+        let adv = if S::UP { pos1 - pos0 } else { pos0 - pos1 };
+        kani::assert(adv >= 2 * out_len && adv < 2 * out_len + pad_bound + 2, "C15.mut_vec.advance_is_contents_plus_padding");
+    } else {
+        kani::assert(pos1 == pos0, "C15.mut_vec.unfinalised_or_empty_moves_nothing");
+    }
+    kani::assert(al(pos1, S::MIN_ALIGN) && a.wf(), "C10.mut_vec.wf");
+    kani::cover!(finalise && out_len == 3, "three-elements-finalised");
+    kani::cover!(!finalise && pushed > 0, "dropped-unfinalised");
+    kani::cover!(pushed < n, "push-failed-for-lack-of-space");
+}
+
+/// C07/C15: a growth of a `MutBumpVec` that FAILS (no chunk fits, the base allocator refuses a new one) after the
+/// slow path looked at a cached later chunk leaves the vector and the arena intact: same length and contents,
+/// finalising still yields the pushed bytes inside allocated memory of a well-formed arena.
+pub(crate) fn ob_mut_vec_failed_grow<A, S>(hint: usize)
+where
+    A: crate::BaseAllocator<S::GuaranteedAllocated> + Default,
+    S: BumpAllocatorSettings,
+{
+    let k = 2;
+    let mut a = Arena::<A, S>::build(k, hint);
+    a.havoc_at(0);
+    let s0 = a.snaps();
+    let bytes0 = a.allocated_bytes();
+    unsafe { BUDGET = 0 };
+    let vals = [kani::any::<u8>(), kani::any::<u8>()];
+    let n: usize = kani::any();
+    kani::assume(n >= 1 && n <= 2);
+    let add: usize = kani::any();
+    kani::assume(add <= 400);
+    let raw_view: *const crate::raw_bump::RawBump<A, S> = &a.bump;
+    let scope: &mut BumpScope<'_, A, S> = unsafe { transmute_mut(&mut a.bump) };
+    let mut v = crate::MutBumpVec::<u8, _>::new_in(&mut *scope);
+    let mut pushed = 0;
+    let mut i = 0;
+    while i < n {
+        if v.try_push(vals[i]).is_ok() {
+            pushed += 1;
+        }
+        i += 1;
+    }
+    // the pushes may legitimately have continued in the later chunk; what must not change is the chunk across a FAILED reserve
+    let chunk_before_reserve = unsafe { (*raw_view).chunk.get().header().as_ptr() as usize };
+    let r = v.try_reserve(add);
+    let chunk_after_reserve = unsafe { (*raw_view).chunk.get().header().as_ptr() as usize };
+    kani::assert(v.len() == pushed, "C07.mut_vec.failed_reserve_keeps_length");
+    let j: usize = kani::any();
+    kani::assume(j < pushed);
+    if pushed > 0 {
+        kani::assert(v[j] == vals[j], "C07.mut_vec.failed_reserve_keeps_contents");
+    }
+    let failed = r.is_err();
+    let sl = v.into_slice();
+    let (sa, sn) = (sl.as_ptr() as usize, sl.len());
+    if pushed > 0 {
+        kani::assert(sn == pushed && sl[j] == vals[j], "C15.mut_vec.into_slice_after_failed_reserve_yields_the_elements");
+    }
+    unsafe { BUDGET = usize::MAX };
+    kani::assert(a.wf(), "C07.mut_vec.failed_reserve_keeps_invariant");
+    if sn > 0 {
+        kani::assert(a.is_allocated(sa) && a.is_allocated(sa + sn - 1), "C01.mut_vec.slice_is_allocated");
+    }
+    if failed {
+        kani::assert(chunk_after_reserve == chunk_before_reserve, "C07.mut_vec.failed_reserve_leaves_current_chunk");
+        kani::assert(a.allocated_bytes() >= bytes0 + sn && a.allocated_bytes() < bytes0 + sn + 16, "C07.mut_vec.allocated_bytes_account_for_the_slice");
+    }
+    kani::cover!(failed && pushed > 0, "reserve-failed-with-contents");
+    kani::cover!(!failed && add > 20, "reserve-succeeded-in-later-chunk");
+}
+
 type SUp1 = St<1, true, true, true, true>;
 type SDn1 = St<1, false, true, true, true>;
 type SUp8 = St<8, true, true, true, true>;
@@ -270,6 +413,22 @@ inst!(ep_try_alloc_slice_copy, unwind 3, ob_entry_pair, LogAlloc, SUp1, 1, 128, 
 inst!(ep_alloc_sized_dn16, unwind 3, ob_entry_pair, LogAlloc, SDn16, 1, 128, 0);
 inst!(ep_alloc_slice_up4, unwind 3, ob_entry_pair, LogAlloc<u64>, SUp4, 1, 128, 3);
 inst!(ep_alloc_sized_up8_k2, unwind 4, ob_entry_pair, LogAlloc, SUp8, 2, 64, 0);
+
+inst!(mut_vec_up1, unwind 5, ob_mut_vec, LogAlloc, SUp1, 1, 64, false);
+inst!(mut_vec_dn8, unwind 5, ob_mut_vec, LogAlloc, SDn8, 1, 64, false);
+inst!(mut_vec_rev_up8, unwind 5, ob_mut_vec, LogAlloc, SUp8, 1, 64, true);
+inst!(mut_vec_rev_dn1, unwind 5, ob_mut_vec, LogAlloc, SDn1, 1, 64, true);
+
+#[kani::proof]
+#[kani::unwind(5)]
+pub(crate) fn mut_vec_failed_grow_up1() {
+    ob_mut_vec_failed_grow::<LogAlloc, SUp1>(64);
+}
+#[kani::proof]
+#[kani::unwind(5)]
+pub(crate) fn mut_vec_failed_grow_dn8() {
+    ob_mut_vec_failed_grow::<LogAlloc, SDn8>(64);
+}
 
 inst!(prepared_slice_up1, unwind 5, ob_prepared_slice, LogAlloc, SUp1, 1, 64, false);
 inst!(prepared_slice_dn1, unwind 5, ob_prepared_slice, LogAlloc, SDn1, 1, 64, false);
